@@ -23,7 +23,8 @@ REQUIRED = ["Sqfs.C03.conseq_count_ok", "Sqfs.C03.dir_end_headers_ok", "Sqfs.C03
             "Sqfs.C03.id_count_fits", "Sqfs.C03.finish_order", "Sqfs.C03.pad_multiple",
             "Sqfs.C03.inode_numbers_bijective", "Sqfs.C03.children_before_parent", "Sqfs.C03.dir_index_count_exact",
             "Sqfs.C03.dir_index_points_at_headers", "Sqfs.C03.export_table_resolves", "Sqfs.C03.write_table_locations",
-            "Sqfs.C03.keep_in_memory_same_blocks", "Sqfs.C03.listing_strictly_sorted"]
+            "Sqfs.C03.keep_in_memory_same_blocks", "Sqfs.C03.listing_strictly_sorted",
+            "Sqfs.C03.inode_numbers_dense_after_reorder_partial", "Sqfs.C03.file_inode_values_exact"]
 
 K_D11 = "D11:lz4-block-not-smaller"
 K_D8 = "D8:id-count-wraps"
@@ -260,6 +261,23 @@ def gen_ops_more(ctx, add):
             pool += [base, base + bytes([rng.choice(alpha)])] if rng.random() < 0.4 else [base]
         names = [rng.choice(pool) for _ in range(n)]
         add("names " + " ".join(n_.hex() for n_ in names) if names else "names", op="names", names=names)
+    # inode.c: basic vs extended file inodes around the 32-bit limits
+    big = [0, 1, 0xFFFFFFFE, 0xFFFFFFFF, 0x100000000, 0x100000001, 0x1FFFFFFFF, 1 << 40, (1 << 64) - 1]
+    for _ in range(60 if q else 600):
+        toks = []
+        for _ in range(rng.choice([1, 2, 3, 5, 9])):
+            k = rng.choice("SSSBBXPFeb")
+            if k in "SB":
+                toks.append("%s%d" % (k, rng.choice(big + [rng.randrange(1 << 34)])))
+            elif k == "X":
+                toks.append("X%d" % rng.choice([NOIDX, NOIDX, 0, 5, 0xFFFFFFFE]))
+            elif k == "P":
+                toks.append("P%d" % rng.choice([0, 1, 4096, 0xFFFFFFFF]))
+            elif k == "F":
+                toks.append("F%d,%d" % (rng.choice([0, 7, NOIDX]), rng.choice([0, 4095, NOIDX])))
+            else:
+                toks.append(k)
+        add("fino " + " ".join(toks), op="fino", toks=toks)
     # padd_sqfs: device block sizes that are and are not powers of two
     for bs in DEVBLKS + [rng.randrange(1024, 1 << 20) | 1 for _ in range(4 if q else 40)] + [rng.randrange(1024, 1 << 20) for _ in range(3 if q else 30)]:
         for size in [0, 1, bs - 1, bs, bs + 1, 7 * bs, 96, rng.randrange(1 << 20), rng.randrange(1 << 33), (1 << 40) + rng.randrange(1 << 20)]:
@@ -663,6 +681,30 @@ def monitor_names(m, ans):
     return bad
 
 
+def monitor_fino(m, ans):
+    """no value is narrowed: whatever layout inode.c picked, a reader gets back exactly the values that were set"""
+    want = {"start": 0, "size": 0, "sparse": 0, "nlink": 1, "frag": "0,0", "xattr": NOIDX}
+    for t in m["toks"]:
+        if t[0] == "S":
+            want["size"] = int(t[1:])
+        elif t[0] == "B":
+            want["start"] = int(t[1:])
+        elif t[0] == "X":
+            want["xattr"] = int(t[1:])
+        elif t[0] == "P":
+            want["sparse"] = (want["sparse"] + int(t[1:])) % (1 << 64)
+        elif t[0] == "F":
+            want["frag"] = t[1:]
+    f = ans.split()
+    if not f or f[0] not in ("basic", "ext"):
+        return ["unexpected answer"]
+    got = {"sparse": 0, "nlink": 1, "xattr": NOIDX}
+    for x in f[1:]:
+        k, v = x.split("=")
+        got[k] = v if k == "frag" else int(v)
+    return ["%s inode reads back %s=%s, %s was set" % (f[0], k, got.get(k), want[k]) for k in want if got.get(k) != want[k]]
+
+
 def monitor_pad(m, ans):
     kv = dict(x.split("=", 1) for x in ans.split() if "=" in x)
     bad = []
@@ -677,7 +719,8 @@ def monitor_pad(m, ans):
 
 
 MONITORS = {"conseq": monitor_conseq, "meta": monitor_meta, "blk": monitor_blk, "ids": monitor_ids, "idsrange": monitor_idsrange,
-            "table": monitor_table, "metak": monitor_metak, "dirx": monitor_dirx, "names": monitor_names, "pad": monitor_pad}
+            "table": monitor_table, "metak": monitor_metak, "dirx": monitor_dirx, "names": monitor_names, "pad": monitor_pad,
+            "fino": monitor_fino}
 HARNESS_OF = {"names": "h_c03n", "pad": "h_c03f"}       # every other op: h_c03
 
 
@@ -958,7 +1001,7 @@ def pieces(ctx, harnesses):
                        {"kind": "ops", "line": l, "impl": a, "witness_model": o, "repaired_model": b})
             elif a != b:
                 report(ctx, "corr:" + l, "correspondence broke for %s: impl=%s model=%s" % (l, a, b), {"kind": "ops", "line": l}, found_input=False)
-    want_ops = {"conseq", "dirw", "dirx", "meta", "metak", "table", "blk", "ids", "idsrange", "names", "pad"}
+    want_ops = {"conseq", "dirw", "dirx", "meta", "metak", "table", "blk", "ids", "idsrange", "names", "pad", "fino"}
     if not want_ops <= set(hist):
         raise vlib.CheckFailure("internal: no op line generated for %s" % sorted(want_ops - set(hist)))
     targets = sorted(m["dirsize"] for m in meta if "dirsize" in m)
